@@ -87,3 +87,40 @@ void vstub_decode_parameters(silk_decoder_state *psDec, silk_decoder_control *ps
 #define silk_decode_parameters vstub_decode_parameters
 #define silk_decode_frame verif_decode_frame
 #include "decode_frame.c"
+
+/* ---- the output stage of silk_Decode (mode `out`): dec_API.c itself, silk_stereo_MS_to_LR, silk_resampler and its three
+   kernels are compiled here; silk_decode_frame and the two stereo side-information decoders are scripted stubs. */
+#undef silk_decode_frame
+opus_int vstub_decode_frame(silk_decoder_state *psDec, ec_dec *psRangeDec, opus_int16 pOut[], opus_int32 *pN, opus_int lostFlag,
+                            opus_int condCoding, int arch);
+void vstub_stereo_decode_pred(ec_dec *psRangeDec, opus_int32 pred_Q13[]);
+void vstub_stereo_decode_mid_only(ec_dec *psRangeDec, opus_int *decode_only_mid);
+#define silk_decode_frame vstub_decode_frame
+#define silk_stereo_decode_pred vstub_stereo_decode_pred
+#define silk_stereo_decode_mid_only vstub_stereo_decode_mid_only
+#define silk_stereo_MS_to_LR verif_stereo_MS_to_LR
+#include "stereo_MS_to_LR.c"
+#define silk_resampler_private_AR2 verif_resampler_private_AR2
+#include "resampler_private_AR2.c"
+#define silk_resampler_private_up2_HQ verif_resampler_private_up2_HQ
+#define silk_resampler_private_up2_HQ_wrapper verif_resampler_private_up2_HQ_wrapper
+#include "resampler_private_up2_HQ.c"
+#define silk_resampler_private_IIR_FIR verif_resampler_private_IIR_FIR
+#include "resampler_private_IIR_FIR.c"
+#define silk_resampler_private_down_FIR verif_resampler_private_down_FIR
+#include "resampler_private_down_FIR.c"
+#define silk_resampler_init verif_resampler_init
+#define silk_resampler verif_resampler
+#include "resampler.c"
+#undef silk_resampler_init            /* silk_decoder_set_fs (library) initialises the states; same code */
+#define silk_LoadOSCEModels verif_LoadOSCEModels
+#define silk_Get_Decoder_Size verif_Get_Decoder_Size
+#define silk_ResetDecoder verif_ResetDecoder
+#define silk_InitDecoder verif_InitDecoder
+#define silk_Decode verif_Decode
+#include "dec_API.c"
+/* accessors for the driver (silk_decoder is private to dec_API.c) */
+silk_decoder_state *verif_dec_channel(void *d, int n) { return &((silk_decoder *)d)->channel_state[n]; }
+stereo_dec_state *verif_dec_stereo(void *d) { return &((silk_decoder *)d)->sStereo; }
+int verif_dec_nch_internal(void *d) { return ((silk_decoder *)d)->nChannelsInternal; }
+int verif_dec_prev_dom(void *d) { return ((silk_decoder *)d)->prev_decode_only_middle; }
